@@ -2,7 +2,7 @@
    Only statements, `exact`, Print Assumptions and non-vacuity examples. *)
 From Coq Require Import List Bool Arith Reals Lra Sorted.
 Import ListNotations.
-From PS Require Import Num RLemmas Valid ModelKernels ModelFuncs ModelAPI Spec SyncDefs Lem_IsiProps Lem_Spike Lem_Mrts Lem_API Lem_WF Lem_API2 Lem_API3 Lem_API4 Lem_API5 Lem_API7.
+From PS Require Import Num RLemmas Valid ModelKernels ModelFuncs ModelAPI Spec SyncDefs Lem_IsiProps Lem_Spike Lem_Mrts Lem_API Lem_WF Lem_API2 Lem_API3 Lem_API4 Lem_API5 Lem_API7 Lem_API10.
 From PS Require Lem_Order Lem_OrderSpec.
 Require Import PS.Props.PropTac.
 Local Open Scope R_scope.
@@ -160,6 +160,17 @@ Theorem C07_multi_bad_index : forall eps cy nrm m mt ri iv (l : list (@train R))
   spike_train_order_multi ROps eps cy false nrm mt m l idx = Err AssertionError.
 Proof. exact multi_bad_index. Qed.
 Print Assumptions C07_multi_bad_index.
+
+(* ---- from Lem_API10.v ---- *)
+Theorem C07_bi_auto_symmetric : forall eps cy mt ri iv a b ts te, vtrain ts te a -> vtrain ts te b ->
+  isi_distance_bi ROps eps cy false (auto_thr [b; a]) iv b a
+    = isi_distance_bi ROps eps cy false (auto_thr [a; b]) iv a b /\
+  spike_distance_bi ROps eps cy false (auto_thr [b; a]) ri iv b a
+    = spike_distance_bi ROps eps cy false (auto_thr [a; b]) ri iv a b /\
+  spike_sync_bi ROps eps cy false mt (auto_thr [b; a]) iv b a
+    = spike_sync_bi ROps eps cy false mt (auto_thr [a; b]) iv a b.
+Proof. exact bi_auto_symmetric. Qed.
+Print Assumptions C07_bi_auto_symmetric.
 
 Example C07_nonvacuous : vtrain 0 1 ([0; 1/2; 1], 0, 1) /\ vtrain 0 1 ([], 0, 1).
 Proof. unfold vtrain; cbn [tr_spikes tr_start tr_end fst snd]; repeat split; try lra; valid_tac. Qed.
